@@ -3,7 +3,8 @@ import MindsVerif.Model.TS
 
 plan line : `P <nG> <window> <o><g><h><f> <limit|-> <W|->`
    ->  `planning` | `crash` | `ok part=<W|-|none> sels=<W>@<lim|->;… otf=<W|-> limit=<n|->`
-eval line : `E <p0,p1,…|-> <t,g0,g1;…|-> <limit|-> <W>`     (t/g values: integer or `n` for NULL)
+eval line : `E|F <p0,p1,…|-> <t,g0,g1;…|-> <limit|-> <W>`   (values: integer or `n` for NULL; F = executor
+            fills `$var[col]` null-safely, E = plain SQL equality)
    ->  rows returned by `evalSel`, `t,g0,g1;…`  (or `-` when empty)
 
 W ::= (i t) | (i g <n>) | (i x) | (c <int>) | L | N | (v <n>) | (T <int>*) | (O <0|1>)
@@ -15,7 +16,7 @@ def showOp : Op → String
   | .and => "and" | .gt => "gt" | .ge => "ge" | .eq => "eq" | .lt => "lt" | .le => "le"
   | .inn => "in" | .isnot => "isnot" | .bad k => s!"bad{k}"
 
-partial def showW : W → String
+partial def showW : W Int → String
   | .ident .time => "(i t)"
   | .ident (.grp i) => s!"(i g {i})"
   | .ident .other => "(i x)"
@@ -40,7 +41,7 @@ partial def readInts : List String → List Int → Option (List Int × List Str
   | t :: rest, acc => do let v ← t.toInt?; readInts rest (v :: acc)
   | [], _ => none
 
-partial def readW : List String → Option (W × List String)
+partial def readW : List String → Option (W Int × List String)
   | "L" :: rest => some (.latest, rest)
   | "N" :: rest => some (.null, rest)
   | "(" :: "i" :: "t" :: ")" :: rest => some (.ident .time, rest)
@@ -65,7 +66,7 @@ partial def readW : List String → Option (W × List String)
     match rest with | ")" :: rest => some (.un x, rest) | _ => none
   | _ => none
 
-def readOptW : List String → Option (Option W)
+def readOptW : List String → Option (Option (W Int))
   | ["-"] => some none
   | ts => match readW ts with | some (w, []) => some (some w) | _ => none
 
@@ -73,7 +74,7 @@ def showLim : Option Nat → String
   | none => "-"
   | some n => toString n
 
-def showRes : Res → String
+def showRes : Res Int → String
   | .planning => "planning"
   | .crash => "crash"
   | .ok p =>
@@ -85,7 +86,7 @@ def showRes : Res → String
 def readCell (s : String) : Option (Option Int) :=
   if s == "n" then some none else s.toInt?.map some
 
-def readRow (s : String) : Option Row :=
+def readRow (s : String) : Option (Row Int) :=
   match (s.splitOn ",").mapM readCell with
   | some (t :: g) => some ⟨t, g⟩
   | _ => none
@@ -94,30 +95,43 @@ def showCell : Option Int → String
   | none => "n"
   | some v => toString v
 
-def showRow (r : Row) : String := ",".intercalate ((r.t :: r.g).map showCell)
+def showRow (r : Row Int) : String := ",".intercalate ((r.t :: r.g).map showCell)
 
 def tokens (s : String) : List String :=
   (((s.replace "(" " ( ").replace ")" " ) ").splitOn " ").filter (· ≠ "")
 
+def handleE : List String → String
+  | cmd :: p :: rows :: lim :: rest =>
+    if cmd != "E" && cmd != "F" then "bad-line" else
+    let p? : Option (List (Option Int)) := if p == "-" then some [] else (p.splitOn ",").mapM readCell
+    let rows? : Option (List (Row Int)) := if rows == "-" then some [] else (rows.splitOn ";").mapM readRow
+    let lim? : Option (Option Nat) := if lim == "-" then some none else lim.toNat?.map some
+    match p?, rows?, lim?, readW rest with
+    | some p, some T, some lim, some (w, []) =>
+      let out := evalSel ⟨p, cmd == "F"⟩ T ⟨w, lim⟩
+      if out.isEmpty then "-" else ";".intercalate (out.map showRow)
+    | _, _, _, _ => "bad-line"
+  | _ => "bad-line"
+
 def handle (line : String) : String :=
   match tokens line.trimAscii.toString with
-  | "P" :: nG :: win :: flags :: lim :: rest =>
+  | pc :: nG :: win :: flags :: lim :: rest =>
+    -- `P`: the pinned tree (`Cfg.pinned`); `P10` / `P01` / `P11`: with fixes/C15_3 (deepValidate) and / or
+    -- fixes/C15_4 (normalizeTF) — used only to try a proposed fix against a patched work tree
+    let cfg? : Option Cfg := match pc with
+      | "P" => some Cfg.pinned | "P10" => some ⟨true, false⟩ | "P01" => some ⟨false, true⟩
+      | "P11" => some ⟨true, true⟩ | _ => none
+    match cfg? with
+    | none => handleE (pc :: nG :: win :: flags :: lim :: rest)
+    | some cfg =>
     match nG.toNat?, win.toNat?, readOptW rest, flags.toList with
     | some nG, some win, some w, [o, g, h, f] =>
       match (if lim == "-" then some none else lim.toNat?.map some) with
       | some lim =>
-        showRes (planTS ⟨nG, win⟩ { whereC := w, orderBy := o == '1', groupBy := g == '1', having := h == '1',
-                                    offset := f == '1', limit := lim })
+        let q : Query Int := { whereC := w, orderBy := o == '1', groupBy := g == '1', having := h == '1',
+                               offset := f == '1', limit := lim }
+        showRes (planTS cfg ⟨nG, win⟩ q)
       | none => "bad-line"
-    | _, _, _, _ => "bad-line"
-  | "E" :: p :: rows :: lim :: rest =>
-    let p? : Option (List Int) := if p == "-" then some [] else (p.splitOn ",").mapM String.toInt?
-    let rows? : Option (List Row) := if rows == "-" then some [] else (rows.splitOn ";").mapM readRow
-    let lim? : Option (Option Nat) := if lim == "-" then some none else lim.toNat?.map some
-    match p?, rows?, lim?, readW rest with
-    | some p, some T, some lim, some (w, []) =>
-      let out := evalSel p T ⟨w, lim⟩
-      if out.isEmpty then "-" else ";".intercalate (out.map showRow)
     | _, _, _, _ => "bad-line"
   | _ => "bad-line"
 
